@@ -28,6 +28,7 @@ type Op struct {
 // State is a projected specification state: S structural (white box), O observable
 // through non-destructive public calls, D full (possibly destructive) observation.
 type State struct {
+	K json.RawMessage `json:"k,omitempty"` // complete model state (node identity) when S is only the comparable part
 	S json.RawMessage `json:"s"`
 	O json.RawMessage `json:"o"`
 	D json.RawMessage `json:"d"`
@@ -158,6 +159,9 @@ func BuildGraph(edges []*Edge) *Graph {
 	idx := map[string]int{}
 	id := func(s State) int {
 		k := JS(Canon(s.S))
+		if len(s.K) > 0 {
+			k = string(s.K)
+		}
 		if i, ok := idx[k]; ok {
 			return i
 		}
